@@ -5,6 +5,7 @@ import (
 	"go/token"
 	"go/types"
 	"math/big"
+	"sort"
 	"strings"
 
 	"golang.org/x/tools/go/ssa"
@@ -342,8 +343,8 @@ func (c *Ctx) useTypeID(e *Engine, t types.Type) int {
 	}
 	if _, ok := c.concrete[id]; !ok {
 		c.concrete[id] = t
-		for iid, it := range c.ifaces {
-			c.Fact(fmt.Sprintf("(= (implements %d %d) %v)", id, iid, types.Implements(t, it)))
+		for _, iid := range sortedIntKeys(c.ifaces) {
+			c.Fact(fmt.Sprintf("(= (implements %d %d) %v)", id, iid, types.Implements(t, c.ifaces[iid])))
 		}
 	}
 	return id
@@ -359,8 +360,8 @@ func (c *Ctx) useIfaceID(e *Engine, t types.Type) int {
 		it := t.Underlying().(*types.Interface)
 		c.ifaces[id] = it
 		c.Fact(fmt.Sprintf("(not (implements 0 %d))", id))
-		for cid, ct := range c.concrete {
-			c.Fact(fmt.Sprintf("(= (implements %d %d) %v)", cid, id, types.Implements(ct, it)))
+		for _, cid := range sortedIntKeys(c.concrete) {
+			c.Fact(fmt.Sprintf("(= (implements %d %d) %v)", cid, id, types.Implements(c.concrete[cid], it)))
 		}
 	}
 	return id
@@ -667,7 +668,12 @@ func (c *Ctx) sentinelTerm(name string) string {
 	if !c.sentinels[n] {
 		c.Decls = append(c.Decls, fmt.Sprintf("(declare-fun %s () Iface)", n))
 		c.Fact(fmt.Sprintf("(not (= (ityp %s) 0))", n))
+		var others []string
 		for o := range c.sentinels {
+			others = append(others, o)
+		}
+		sort.Strings(others)
+		for _, o := range others {
 			c.Fact(fmt.Sprintf("(not (= %s %s))", n, o))
 		}
 		c.sentinels[n] = true
@@ -803,7 +809,7 @@ func (f *Frame) sliceOp(x *ssa.Slice, reach string, st *State) {
 			f.oblig("bounds", x.Pos(), text, reach, fmt.Sprintf("(and (<= 0 %s) (<= %s %s) (<= %s (scap %s)))", lo, lo, hi, hi, xv))
 		}
 		// a nil slice resliced [0:0] stays nil
-		f.define(x, fmt.Sprintf("(ite (= (sbase %s) nil) nilslice (mkslice (sbase %s) (+ (soff %s) %s) (- %s %s) (- %s %s)))", xv, xv, xv, lo, hi, lo, mx, lo))
+		f.define(x, fmt.Sprintf("(subslice %s %s %s %s)", xv, lo, hi, mx))
 	case *types.Basic: // string
 		hi := fmt.Sprintf("(slen %s)", xv)
 		if x.High != nil {
@@ -917,4 +923,13 @@ func (f *Frame) next(x *ssa.Next, reach string, st *State) {
 	f.ctx.Fact(Implies(okc, f.ctx.typeFacts(v, mt.Elem(), st.alloc)))
 	f.mapLenFacts(st, m, mt)
 	f.tuples[x] = []string{okc, k, v}
+}
+
+func sortedIntKeys[V any](m map[int]V) []int {
+	var ks []int
+	for k := range m {
+		ks = append(ks, k)
+	}
+	sort.Ints(ks)
+	return ks
 }
